@@ -5,6 +5,7 @@
 package witness
 
 import (
+	"sync"
 	"bytes"
 	"context"
 	"crypto"
@@ -36,6 +37,11 @@ var (
 		pf     [][]byte
 		r1, r2 []byte
 	}
+	c19Conc      bool // concurrent harness: the stand-ins below are re-entrant and script a two-branch log
+	c19DBMu      sync.Mutex
+	c19TxMu      sync.Mutex
+	c19OpenTx    *sql.Tx
+	c19History   [][]byte
 	c19Tx        *sql.Tx // the transaction opened by the update under test
 	c19ReadInTx  bool
 	c19WriteInTx bool
@@ -47,6 +53,13 @@ var (
 
 //verif:stub (*github.com/google/certificate-transparency-go/internal/witness/cmd/witness/internal/witness.Witness).getLatestSTH files=witness.go method=getLatestSTH
 func c19GetLatest(w *Witness, _ func(string, ...interface{}) *sql.Row, logID string) ([]byte, error) {
+	if c19Conc {
+		vSched("db read")
+		if c19Row == nil {
+			return nil, status.Errorf(codes.NotFound, "no STH for log %q", logID)
+		}
+		return c19Row, nil
+	}
 	c19ReadInTx = c19Tx != nil
 	if c19DBFails {
 		return nil, errors.New("database is locked")
@@ -59,6 +72,15 @@ func c19GetLatest(w *Witness, _ func(string, ...interface{}) *sql.Row, logID str
 
 //verif:stub (*github.com/google/certificate-transparency-go/internal/witness/cmd/witness/internal/witness.Witness).setSTH files=witness.go method=setSTH
 func c19SetSTH(w *Witness, tx any, logID string, sth []byte) error {
+	if c19Conc {
+		vSched("db write")
+		c19Row = sth
+		c19History = append(c19History, sth)
+		if t, ok := tx.(*sql.Tx); ok && t != nil && c19CloseTx(t) {
+			c19DBMu.Unlock() // commit
+		}
+		return nil
+	}
 	t, isTx := tx.(*sql.Tx)
 	c19WriteInTx = isTx && t != nil && t == c19Tx
 	c19Writes = append(c19Writes, sth)
@@ -68,15 +90,43 @@ func c19SetSTH(w *Witness, tx any, logID string, sth []byte) error {
 
 //verif:stub (*database/sql.DB).BeginTx files=witness.go method=BeginTx
 func c19BeginTx(db *sql.DB, ctx context.Context, opts *sql.TxOptions) (*sql.Tx, error) {
+	if c19Conc {
+		// serialisable isolation, as the database provides it: one open transaction at a time
+		c19DBMu.Lock()
+		t := &sql.Tx{}
+		c19TxMu.Lock()
+		c19OpenTx = t
+		c19TxMu.Unlock()
+		return t, nil
+	}
 	c19Tx = &sql.Tx{}
 	return c19Tx, nil
 }
 
+// c19CloseTx reports whether tx is the open transaction, and closes it.
+func c19CloseTx(tx *sql.Tx) bool {
+	c19TxMu.Lock()
+	defer c19TxMu.Unlock()
+	if tx == c19OpenTx {
+		c19OpenTx = nil
+		return true
+	}
+	return false
+}
+
 //verif:stub (*database/sql.Tx).Rollback files=witness.go method=Rollback
-func c19Rollback(tx *sql.Tx) error { return nil }
+func c19Rollback(tx *sql.Tx) error {
+	if c19Conc && tx != nil && c19CloseTx(tx) {
+		c19DBMu.Unlock()
+	}
+	return nil
+}
 
 //verif:stub (github.com/google/certificate-transparency-go.SignatureVerifier).VerifySTHSignature files=witness.go method=VerifySTHSignature
 func c19VerifySTH(sv ct.SignatureVerifier, sth ct.SignedTreeHead) error {
+	if c19Conc {
+		return nil // every STH of the concurrent harness is validly signed by the log
+	}
 	i := c19SigCalls
 	c19SigCalls++
 	c19SigSeen = append(c19SigSeen, sth)
@@ -89,6 +139,14 @@ func c19VerifySTH(sv ct.SignatureVerifier, sth ct.SignedTreeHead) error {
 
 //verif:stub github.com/transparency-dev/merkle/proof.VerifyConsistency files=*
 func c19VerifyConsistency(_ merkle.LogHasher, s1, s2 uint64, pf [][]byte, r1, r2 []byte) error {
+	if c19Conc {
+		// a proof exists exactly between heads of one branch (root[0] names the branch), and the
+		// submitted proof (its first byte names the size it starts from) must be for this pair
+		if r1[0] == r2[0] && s1 < s2 && len(pf) == 1 && len(pf[0]) == 1 && uint64(pf[0][0]) == s1 {
+			return nil
+		}
+		return errors.New("inconsistent")
+	}
 	c19ConsCalls++
 	c19Cons.s1, c19Cons.s2, c19Cons.pf, c19Cons.r1, c19Cons.r2 = s1, s2, pf, r1, r2
 	if c19ConsOK {
@@ -99,6 +157,9 @@ func c19VerifyConsistency(_ merkle.LogHasher, s1, s2 uint64, pf [][]byte, r1, r2
 
 //verif:stub github.com/google/certificate-transparency-go/tls.CreateSignature files=*
 func c19CreateSignature(k crypto.PrivateKey, h tls.HashAlgorithm, data []byte) (tls.DigitallySigned, error) {
+	if c19Conc {
+		return tls.DigitallySigned{Algorithm: tls.SignatureAndHashAlgorithm{Hash: h, Signature: tls.ECDSA}, Signature: []byte{0xc0, 0x51}}, nil
+	}
 	c19Signs++
 	c19SignKey, c19SignHash, c19SignData = k, h, data
 	return tls.DigitallySigned{Algorithm: tls.SignatureAndHashAlgorithm{Hash: h, Signature: tls.ECDSA}, Signature: []byte{0xc0, 0x51}}, nil
@@ -138,6 +199,7 @@ func Harness_C19_update() {
 	w := &Witness{db: &sql.DB{}, sk: sk, Logs: map[string]ct.SignatureVerifier{c19LogID: {PubKey: logKey}, c19OtherLogID: {PubKey: otherKey}}}
 	c19Writes, c19SigCalls, c19SigSeen, c19SigKeys, c19ConsCalls, c19Signs = nil, 0, nil, nil, 0, 0
 	c19Tx, c19ReadInTx, c19WriteInTx = nil, false, false
+	c19Conc = false
 	c19DBFails = vChoice("db-fails", 2) == 1
 	unknownLog := vChoice("unknown-log", 2) == 1
 	nextIDKind := vChoice("next-logid", 4)
@@ -214,5 +276,75 @@ func Harness_C19_update() {
 	}
 	if !hasPrev {
 		vAssert(err != nil, "nothing stored and nothing held: an error")
+	}
+}
+
+
+// Harness_C19_concurrent: two updates for the same log arrive concurrently while the witness
+// holds size 5 of branch A: each candidate is a validly signed head of size 8 or 9 on branch A or
+// on a fork B, with the proof a client would submit from size 5. Given serialisable database
+// transactions (the stand-in grants one open transaction at a time), on every interleaving
+// within the delay bound the heads the witness stores form a chain: each is a strict extension of
+// the one held before it on the same branch; refused updates change nothing; no data race.
+//
+//verif:opt sched=1 race=1 preempt=2 thorough.preempt=3 maxpaths=400000 reach=joined,stored,one-refused
+func Harness_C19_concurrent() {
+	sk := &c19Key{7}
+	w := &Witness{db: &sql.DB{}, sk: sk, Logs: map[string]ct.SignatureVerifier{c19LogID: {PubKey: &c19Key{1}}}}
+	mk := func(size uint64, branch byte) []byte {
+		s := &ct.SignedTreeHead{Version: ct.V1, TreeSize: size, Timestamp: 100 + size}
+		s.SHA256RootHash[0], s.SHA256RootHash[1] = branch, byte(size)
+		for i := range s.LogID {
+			s.LogID[i] = byte(i)
+		}
+		return vJSONEncode(s)
+	}
+	held := mk(5, 'A')
+	cand := [2][]byte{}
+	size := [2]uint64{8 + uint64(vChoice("size0", 2)), 8 + uint64(vChoice("size1", 2))}
+	branch := [2]byte{"AB"[vChoice("branch0", 2)], "AB"[vChoice("branch1", 2)]}
+	for i := range cand {
+		cand[i] = mk(size[i], branch[i])
+	}
+	c19Conc, c19Row, c19History, c19OpenTx = true, held, nil, nil
+	var wg sync.WaitGroup
+	var errs [2]error
+	for i := 0; i < 2; i++ {
+		i := i
+		wg.Add(1)
+		go func() {
+			defer wg.Done()
+			_, errs[i] = w.Update(context.Background(), c19LogID, cand[i], [][]byte{{5}})
+		}()
+	}
+	wg.Wait()
+	vReach("joined")
+	// the stored heads form a chain from the held one
+	prevSize, prevBranch := uint64(5), byte('A')
+	for _, raw := range c19History {
+		var s ct.SignedTreeHead
+		vAssert(vJSONDecode(raw, &s) == nil, "stored heads are STHs")
+		vAssert(s.SHA256RootHash[0] == prevBranch && s.TreeSize > prevSize, "every stored head is a strict extension of the head held before it (never a fork, never smaller or equal)")
+		prevSize, prevBranch = s.TreeSize, s.SHA256RootHash[0]
+	}
+	vAssert(len(c19History) <= 2, "at most one write per update")
+	if len(c19History) == 0 {
+		vAssert(string(c19Row) == string(held), "refused updates leave the stored STH unchanged")
+	} else {
+		vAssert(string(c19Row) == string(c19History[len(c19History)-1]), "the row holds the last stored head")
+	}
+	for i := 0; i < 2; i++ {
+		if branch[i] == 'B' {
+			vAssert(errs[i] != nil, "a head of the forked branch is refused")
+		}
+	}
+	if len(c19History) >= 1 {
+		vReach("stored")
+	}
+	// (both proofs start from size 5, so whichever update comes second is refused: its proof is
+	// not one from the head held by then)
+	vAssert(len(c19History) <= 1, "the update that comes second does not prove consistency with the head held by then and is refused")
+	if errs[0] != nil || errs[1] != nil {
+		vReach("one-refused")
 	}
 }
